@@ -94,20 +94,32 @@ def build():
     u.fn(W, ['impl WorldExt for World', 'fn delete_components'], props='C05', impl_header=IH, key='World::delete_components',
          rules=[('N10', r'for (?:mut )?storage in self\s*\.fetch_mut::<MetaTable<dyn AnyStorage>>\(\)\s*\.iter_mut\(self\)\s*\{\s*\(?\*?storage\)?\.drop\((.*?)\);\s*\}',
                  r'for k__ in 0..self.listed_len() { self.listed_drop(k__, \1); }')],
-         ensures=[E('ents', 'final(self).ents() == old(self).ents()'),
+         ensures=[E('ents', 'final(self).ents() == old(self).ents() && final(self).same_lazy(old(self))'),
                   E('purged', 'final(self).purged(old(self), ids(delete@))', 'C05')],
          loops={0: dict(invariant=[
-             E('ents', 'self.ents() == old(self).ents() && self.listed_seq() == old(self).listed_seq()'),
+             E('ents', 'self.ents() == old(self).ents() && self.listed_seq() == old(self).listed_seq() && self.same_lazy(old(self))'),
              E('done', 'forall|s: StorageId| #![trigger self.smask(s)] #![trigger self.listed(s)] #![trigger self.has_storage(s)] self.has_storage(s) == old(self).has_storage(s) && self.listed(s) == old(self).listed(s) && self.smask(s) == (if exists|j: int| 0 <= j < k__ && old(self).listed_seq()[j] == s { old(self).smask(s) - ids(delete@).to_set() } else { old(self).smask(s) })')])},
          hints=[('start', None, 'broadcast use World::axiom_listed_seq;'),
                 ('after_loop', 0, 'proof { old(self).axiom_listed_seq(); assert forall|s: StorageId| #![trigger self.smask(s)] self.smask(s) == (if old(self).listed(s) { old(self).smask(s) - ids(delete@).to_set() } else { old(self).smask(s) }) by { if old(self).listed(s) { assert(old(self).listed_seq().contains(s)); let j = choose|j: int| 0 <= j < old(self).listed_seq().len() && old(self).listed_seq()[j] == s;  } } }')])
+    # ---- draining the lazy queue (C09, reduced): N22 (while-let), N10 (`self.queue.0.pop()` -> `world.lazy_pop()`: the drained LazyUpdate is the world's own)
+    u.fn(L, ['impl LazyUpdate', 'fn maintain'], props='C09', key='LazyUpdate::maintain', attr='#[verifier::exec_allows_no_decreases_clause]',
+         rules=[('N10', r'self\.queue\.0\.pop\(\)', 'world.lazy_pop()')],
+         ensures=[E('drained', 'final(world).lazy_queue() == Seq::<int>::empty()'),
+                  E('order', 'pending(old(world)).is_prefix_of(final(world).lazy_log())')],
+         loops={0: dict(invariant=[E('grows', 'pending(old(world)).is_prefix_of(pending(world))')],
+                        ensures=[E('drained', 'world.lazy_queue().len() == 0')])},
+         hints=[('before', 'l.update(world)', 'let ghost lg__ = world.lazy_log(); let ghost qq__ = world.lazy_queue(); let ghost p0__ = pending(world);'),
+                ('after', 'l.update(world)', 'proof { let w0q = seq![l.aid()] + qq__; assert(w0q.drop_first() =~= qq__); lemma_pending_step(lg__, w0q, world.lazy_queue()); }')])
     u.fn(W, ['impl WorldExt for World', 'fn is_alive'], ret='r', props='C02', impl_header=IH, key='World::is_alive',
          requires=[E('wf', 'self.wf()'), E('posgen', 'e.1.0@ > 0')],
          ensures=[E('merged_view', 'r == (self.ents().alloc.alive@.contains(e.0) && self.ents().alloc.gid(e.0 as int) == e.1.0@)')])
     u.fn(W, ['impl WorldExt for World', 'fn maintain'], props='C02 C05', impl_header=IH, key='World::maintain',
          requires=[E('wf', 'old(self).wf()'), E('headroom', 'old(self).ents().alloc.headroom()'), E('w1', 'old(self).masks_within_occ()')],
-         hint_obligations=[E('merged', 'after the merge step the allocator is in state merged() of the old one', 'C02 C05'),
-                           E('purged', 'every listed storage lost exactly the indices merge() returned, nothing else changed', 'C05'),
+         ensures=[E('drained', 'final(self).lazy_queue() == Seq::<int>::empty()', 'C09'),
+                  E('order', 'pending(old(self)).is_prefix_of(final(self).lazy_log())', 'C09')],
+         hint_obligations=[E('merged', 'after the merge step the allocator is in state merged() of the old one', 'C02 C05 C09'),
+                           E('purged', 'every listed storage lost exactly the indices merge() returned, nothing else changed', 'C05 C09'),
+                           E('queue_untouched', 'merge and purge ran before any queued action: the queue and the execution log are still what they were', 'C09'),
                            ],
-         hints=[('before', 'let lazy', 'proof { assert(/*@L:hint.merged*/ self.abs().core_eq(old(self).abs().merged()) /*@E*/); lemma_out_ids(deleted@, old(self).abs()); if deleted@.len() == 0 { lemma_purge_nothing(&*self, old(self), sorted_seq(old(self).abs().killed)); } assert(/*@L:hint.purged*/ self.purged(old(self), sorted_seq(old(self).abs().killed)) /*@E*/); }')])
+         hints=[('before', 'let lazy', 'proof { assert(/*@L:hint.merged*/ self.abs().core_eq(old(self).abs().merged()) /*@E*/); lemma_out_ids(deleted@, old(self).abs()); if deleted@.len() == 0 { lemma_purge_nothing(&*self, old(self), sorted_seq(old(self).abs().killed)); } assert(/*@L:hint.purged*/ self.purged(old(self), sorted_seq(old(self).abs().killed)) /*@E*/); assert(/*@L:hint.queue_untouched*/ self.same_lazy(old(self)) /*@E*/); }')])
     return u
